@@ -51,6 +51,8 @@ type mState struct {
 	accounts map[string]*mAccount
 	moves    []mMove
 	schemas  []*ledger.Schema
+	// the state column of this ledger's row in _system.ledgers (transactional like everything else)
+	ledgerState string
 }
 
 func newMState() *mState {
@@ -126,6 +128,7 @@ func (s *mState) clone() *mState {
 	}
 	c.moves = append(c.moves, s.moves...)
 	c.schemas = append(c.schemas, s.schemas...)
+	c.ledgerState = s.ledgerState
 	return c
 }
 
@@ -144,8 +147,9 @@ type mDB struct {
 	// journal of store calls, for "which handle / how many times" obligations
 	calls   []string
 	commits int
-	// ledger row of _system.ledgers
-	state string
+	// the SQL transaction most recently begun by each logical thread (for statements issued on the *bun.Tx itself)
+	txOfThread map[int]*mStore
+	nbun       *bun.DB // native replay build: real bun over the store model's driver (nativebun.go)
 	// concurrent mode: statements are yield points for the logical threads of the harness, a transaction reads
 	// the latest committed state plus its own writes (READ COMMITTED), row / key / advisory locks are held until
 	// the transaction ends, and Commit replays the transaction's writes on the then-current committed state
@@ -156,7 +160,9 @@ type mDB struct {
 }
 
 func newMDB(l ledger.Ledger) *mDB {
-	return &mDB{ledger: l, committed: newMState(), initial: map[string]map[string]*ledger.Volumes{}, state: ledger.StateInitializing}
+	db := &mDB{ledger: l, committed: newMState(), initial: map[string]map[string]*ledger.Volumes{}, txOfThread: map[int]*mStore{}}
+	db.committed.ledgerState = ledger.StateInitializing
+	return db
 }
 
 func (db *mDB) initialVolumes(account, asset string) *ledger.Volumes {
@@ -192,6 +198,8 @@ type mTx struct {
 type mStore struct {
 	db *mDB
 	tx *mTx
+	// a dedicated connection holding a session-level advisory lock (LockLedger outside a transaction)
+	session *mTx
 }
 
 func newMStore(db *mDB) *mStore { return &mStore{db: db} }
@@ -270,7 +278,10 @@ func (s *mStore) lock(key string) error {
 	if !s.db.concurrent || s.tx == nil {
 		return nil
 	}
-	me := s.tx.root()
+	return s.lockAs(s.tx.root(), key)
+}
+
+func (s *mStore) lockAs(me *mTx, key string) error {
 	if s.db.locks == nil {
 		s.db.locks = map[string]*mTx{}
 		s.db.waiting = map[*mTx]string{}
@@ -286,7 +297,9 @@ func (s *mStore) lock(key string) error {
 			}
 			o = s.db.locks[wk]
 			if o == me {
-				s.tx.failed = true
+				if s.tx != nil {
+					s.tx.failed = true
+				}
 				return postgres.ErrDeadlockDetected
 			}
 		}
@@ -374,7 +387,9 @@ func (s *mStore) BeginTX(ctx context.Context, options *sql.TxOptions) (Store, *b
 	if err := s.enter("BeginTX"); err != nil {
 		return nil, nil, err
 	}
-	return &mStore{db: s.db, tx: &mTx{state: s.state().clone(), parent: s.tx}}, nil, nil
+	child := &mStore{db: s.db, tx: &mTx{state: s.state().clone(), parent: s.tx}, session: s.session}
+	s.db.txOfThread[verifThreadID()] = child
+	return child, s.db.bunTx(), nil
 }
 
 func (s *mStore) Commit(ctx context.Context) error {
@@ -431,11 +446,39 @@ func (s *mStore) Rollback(ctx context.Context) error {
 	return nil
 }
 
+// LockLedger: pg_advisory_xact_lock('ledger:<id>') inside a transaction (held to its end), else pg_advisory_lock on a
+// dedicated connection (held until the returned release function unlocks it). Both use the same key.
 func (s *mStore) LockLedger(ctx context.Context) (Store, bun.IDB, func() error, error) {
 	if err := s.enter("LockLedger"); err != nil {
 		return nil, nil, nil, err
 	}
-	return s, nil, func() error { return nil }, nil
+	if s.tx != nil {
+		if s.db.concurrent {
+			verifYield("store:LockLedger")
+		}
+		if err := s.lock("advisory:ledger"); err != nil {
+			return nil, nil, nil, err
+		}
+		return s, s.db.bunConn(), func() error { return nil }, nil
+	}
+	session := &mTx{name: "session"}
+	locked := &mStore{db: s.db, session: session}
+	if s.db.concurrent {
+		verifYield("store:LockLedger")
+		if err := locked.lockAs(session, "advisory:ledger"); err != nil {
+			return nil, nil, nil, err
+		}
+	}
+	return locked, s.db.bunConn(), func() error {
+		if s.db.concurrent {
+			for k, o := range s.db.locks {
+				if o == session {
+					delete(s.db.locks, k)
+				}
+			}
+		}
+		return nil
+	}, nil
 }
 
 // ---- balances / volumes ----
@@ -534,6 +577,13 @@ func (s *mStore) CommitTransaction(ctx context.Context, tx *ledger.Transaction) 
 	if tx.ID == nil {
 		s.db.txSeq++ // sequences are not transactional
 		id := s.db.txSeq
+		for _, other := range st.txs {
+			if *other.ID == id {
+				// unique index transactions_ledger (ledger, id). (The real InsertTransaction maps this constraint with
+				// NewErrConcurrentTransaction(*tx.ID): with an id drawn from the sequence tx.ID is nil there.)
+				return s.fail(errors.New("inserting transaction: duplicate key value violates unique constraint \"transactions_ledger\" (id drawn from a sequence that is behind)"))
+			}
+		}
 		tx.ID = &id
 	}
 	now := s.now()
@@ -873,6 +923,11 @@ func (s *mStore) InsertLog(ctx context.Context, log *ledger.Log) error {
 	if log.ID == nil {
 		s.db.logSeq++
 		id := s.db.logSeq
+		for _, l := range st.logs {
+			if *l.ID == id {
+				return s.fail(errors.New("inserting log: duplicate key value violates unique constraint \"logs_ledger\" (id drawn from a sequence that is behind)"))
+			}
+		}
 		log.ID = &id
 	} else {
 		for _, l := range st.logs {
